@@ -72,6 +72,7 @@ PROPS["C04"]["parts"].append(H("TestC04Backpressure", "Wbp", 60, 600, qs=1, ts=1
 _BIN = ["part binary: the real executable built from /repo/cmd, a fake discovery service that completes (or withholds) the registration, a harness-owned credit service, real WebSocket clients over loopback TCP, real time; a start-up or transport problem is inconclusive (skip), never a violation"]
 PROPS["C15"]["parts"].append(H("TestC15Binary", "binary", 40, 600, qs=1, ts=4))
 PROPS["C15"]["assumptions"] += _BIN
+PROPS["C17"]["parts"].append(H("TestC17Wire", "W", 150, 1500, qs=1, ts=16, hang_is_violation=True))
 PROPS["C17"]["parts"].append(H("TestC17Binary", "binary", 8, 120, qs=1, ts=8))
 PROPS["C17"]["assumptions"] = PROPS["C17"]["assumptions"] + _BIN
 PROPS["C19"]["parts"].append(H("TestC19Binary", "binary", 15, 200, qs=1, ts=4))
